@@ -906,7 +906,7 @@ func trustedBase() []string {
 		"single sequential process; nobody else modifies the repository during a command",
 		"paths are clean (Goit builds every path by filepath.Join from the repository root): joining a valid component is injective and makes the path longer",
 		"os.Getwd, filepath.Abs and filepath.Rel are deterministic within one run (the process never changes directory)",
-		"failure model: creations, writes, mkdir, remove, rename may fail at any time, a failed write leaves that file with unknown content; reads fail only when the path is absent; Close and zlib errors are not modelled",
+		"failure model: creations, writes, mkdir, remove, rename may fail at any time, a failed write leaves that file with unknown content; os.ReadFile, os.Open and os.ReadDir of a path that is there may fail too (a read fault): the reporting obligations (iofail) cover such runs, every other obligation is about runs without a read fault; errors in the middle of a stream (Scanner, io.ReadAll, zlib), of Stat and of Close are not modelled",
 	}
 }
 
